@@ -323,7 +323,8 @@ func (g *untypedGen) blockNoContinue(depth int) string {
 }
 
 // expressions that fail whenever they are evaluated (the fault kinds the property names)
-var faultExprs = []string{"1 % 0", "1 / 0", "nope", "n.x", "s.x.y", `"a".repeat(-1)`, `"a".repeat("x")`, `1 + "a"`, `-"a"`, `"a".nosuchfunc()`, "arr.len(1, 2).x", "(nan--).x"}
+var faultExprs = []string{"1 % 0", "1 / 0", "nope", "n.x", "s.x.y", `"a".repeat(-1)`, `"a".repeat("x")`, `1 + "a"`, `-"a"`, `"a".nosuchfunc()`, "arr.len(1, 2).x", "(nan--).x",
+	"{ nope }.nope", "{ a: 1, nope }.a", "[1, nope]", "{k: nope}.k", "(nope ? 1 : 2)", "(true ? nope : 1)", "obj[nope]", "!nope", "arr[nope]", `"a".repeat(nope)`, "-nope", "nope++", "{ s, nope }"}
 
 // places of a template tree an expression F can stand in; evaluated says whether the place is reached
 var faultPlaces = []struct {
